@@ -92,6 +92,11 @@ func newC16World() *c16World {
 	am.GetAccount(w.gOK).SetCode(types.Code{opPUSH1, 5, opPUSH1, 1, opSSTORE, opSTOP})
 	am.GetAccount(w.gFail).SetBalance(big.NewInt(10))
 	am.GetAccount(w.gFail).SetCode(types.Code{opPUSH1, 5, opPUSH1, 1, opSSTORE, opINVALID})
+	// address collisions by construction: the addresses a CREATE by slot 5 / by `poor` would use exist already
+	// (the contract address depends on the creator and the tx hash only)
+	for _, creator := range []common.Address{w.slots[5], w.poor} {
+		am.GetAccount(crypto.CreateContractAddress(creator, w.txHash)).SetBalance(big.NewInt(1))
+	}
 	// assets: issuer holds the asset codes, holder owns equity of both
 	w.issuer = c16Addr(0x155e01)
 	w.holder = c16Addr(0x401de1)
@@ -454,6 +459,12 @@ func (w *c16World) genCase(c *Ctx, g *c16Gen, iter int) *c16Case {
 	case n == 4:
 		cs.Kind = "create-top"
 		cs.Entry = "create"
+		if r.Intn(5) == 0 {
+			cs.Caller = w.poor // its contract address is taken: collision
+			if cs.Value > 5 {
+				cs.Value = 0
+			}
+		}
 		cs.input = g.initcode()
 		if r.Intn(3) == 0 {
 			cs.input = g.program(2)
@@ -588,7 +599,7 @@ func c16(c *Ctx) {
 	// the opcode table as the code derives it (+ baked-table regeneration when asked)
 	c16EmitTable(c, w)
 	// length-driven precompiles, executed in a memory-capped child process
-	c16PrePhase(c)
+	g.adv = c16PrePhase(c, w) // adversarial memory operands also in the in-process generator, but only if the child found them harmless
 	w.longBudget = 12
 	if c.Tier == "thorough" {
 		w.longBudget = 120
@@ -664,6 +675,12 @@ func (w *c16World) fixedCases(g *c16Gen) []*c16Case {
 	sf.push(0).push(0).push(0).push(0).push(0).pushAddr(w.gFail).push(50000).op(opCALL, opPOP, opSTOP)
 	sfc := mk("fixed:static-inner-call-fails", "static", 200000, 0, map[common.Address][]byte{w.slots[0]: sf.b})
 	out = append(out, sfc)
+	// CREATE from slot 5: the target address exists (collision): all gas handed to the create is lost, no event
+	col := &asm{}
+	col.push(0).push(0).push(0).op(opCREATE, opPOP).push(1).push(0).op(opSSTORE, opSTOP)
+	colc := mk("fixed:create-collision", "call", 1000000, 0, map[common.Address][]byte{w.slots[5]: col.b})
+	colc.Target = w.slots[5]
+	out = append(out, colc)
 	// CREATE recursion down to the depth limit: the init code copies itself to memory and CREATEs it
 	cr := &asm{}
 	cr.op(0x38 /*CODESIZE*/).push(0).push(0).op(opCODECOPY)
